@@ -325,6 +325,10 @@ def main(argv):
                         if m.startswith('U'):
                             n_unsup += 1
                             unsup_reasons[m[:40]] = unsup_reasons.get(m[:40], 0) + 1
+                            if re.search(r'![A-Z][A-Z-]+', obs):
+                                # the property's own oracle, evaluated by the harness on the
+                                # implementation, failed on an input the model declines
+                                violations.append({'index': i, 'case': c, 'go': obs, 'model': m})
                             continue
                         if nt == '1':
                             n_nt += 1
@@ -349,6 +353,8 @@ def main(argv):
         print('KNOWN-FINDING: property=%s %s' % (prop, f.get('what', f.get('id', ''))))
     if violations:
         rc_final = 1
+        # prefer a disagreement that carries a concrete failing input found on the implementation side
+        violations.sort(key=lambda x: (0 if re.search(r'![A-Z][A-Z-]+', x['go']) else 1, x['index']))
         v = violations[0]
         rp = os.path.join(ROOT, 'replays', '%s-%s-%d.json' % (prop, tier, seed))
         json.dump({'property': prop, 'kind': 'failing-input',
